@@ -130,6 +130,9 @@ def check_model(group: ModelGroupType) -> None:
                 except IndexError:
                     return
 
+    if group.max_occurs == 0:
+        return  # an empty content model: no particle can be attributed
+
     paths: Any = {}
     current_path: list[ModelParticleType] = [group]
 
